@@ -193,15 +193,21 @@ def run(ck, m):
             # (whatever it is stored into - a variable, an entry per argument tuple - every stored value carries the size it was computed under:
             # one stamp shared by several entries is refreshed by any of them and then vouches for all the others)
             n_ts_store += 1
-            ok = _under_lock(n, "lock") and isinstance(n.value, ast.Tuple) and len(n.value.elts) == 2
-            key = norm(n.value.elts[1]) if ok else None
+            pair_ = n.value
+            if isinstance(pair_, ast.Call) and isinstance(pair_.func, ast.Name) and len(pair_.args) == 2 and not pair_.keywords:
+                # a two-field NamedTuple that did not exist in the baseline (`_Entry(value, size)`) is the pair with field names
+                k_ = next((c_ for c_ in m.tree(U).body if isinstance(c_, ast.ClassDef) and c_.name == pair_.func.id and any("NamedTuple" in norm(b_) for b_ in c_.bases)), None)
+                if k_ is not None and sum(1 for x_ in k_.body if isinstance(x_, ast.AnnAssign)) == 2:
+                    pair_ = ast.copy_location(ast.Tuple(elts=list(pair_.args), ctx=ast.Load()), pair_)
+            ok = _under_lock(n, "lock") and isinstance(pair_, ast.Tuple) and len(pair_.elts) == 2
+            key = norm(pair_.elts[1]) if ok else None
             cmp_ok = ok and any(isinstance(c, ast.Compare) and key in [norm(c.left)] + [norm(x) for x in c.comparators] for c in body_walk(tw))
             bound_once = ok and sum(1 for t, _ in stores_in(ast.Module(body=tw.body, type_ignores=[])) if norm(t) == key) == 1
             ck.ob("R3", n, ok and cmp_ok and bound_once,
                   "terminal_size_cached must store, under the lock, the pair (value, terminal size) with the very terminal size it compared",
                   stmt="ts_wrapper: store (value, ts)")
             if ok:
-                src_ = norm(trace(tw, n.value.elts[1], use=n))
+                src_ = norm(trace(tw, pair_.elts[1], use=n))
                 ck.ob("R3", n, src_ == "get_terminal_size()", f"the stamp of terminal_size_cached must be the library's `get_terminal_size()` (the size of the *active* terminal); it is `{src_[:60]}` - "
                       "another source (shutil's, which looks at stdout / COLUMNS / LINES) does not change when the active terminal is resized, so the memo is served for ever", stmt="ts_wrapper: stamp = get_terminal_size()")
     ck.expect(n_ts_store >= 1, "terminal_size_cached_wrapper: the statement that stores the computed value not recognised")
